@@ -183,6 +183,7 @@ func (r *Run) opDeviceToken(st Step) {
 	if val != dc.Val {
 		if tokens {
 			r.violate("C06", "tampered-accepted", "dc", "a mutated device code (%s) was exchanged for tokens", st.p("mutate"))
+			r.violate("C16", "forged-device-code-accepted", st.p("mutate"), "a device code with a forged part (%s) was exchanged for tokens: device codes must be unguessable", st.p("mutate"))
 		}
 		r.resync(g, "a mutated device code was presented")
 		return
@@ -453,7 +454,7 @@ func (r *Run) opAuthorizePAR(st Step) {
 	q.Set("request_uri", uri)
 	// conflicting parameters sent alongside
 	conflicts := []string{}
-	for _, k := range []string{"scope", "state", "response_type", "response_mode", "audience", "nonce", "code_challenge"} {
+	for _, k := range []string{"scope", "state", "response_type", "response_mode", "audience", "nonce", "code_challenge", "code_challenge_method", "prompt"} {
 		if v := st.p("x_" + k); v != "" {
 			q.Set(k, v)
 			conflicts = append(conflicts, k)
@@ -576,6 +577,25 @@ func (r *Run) opAuthorizePAR(st Step) {
 		return
 	}
 	g.ViaPAR = true
+	// only parameters the pushed request itself carried can be "overridden"; a parameter that was not pushed and is
+	// added in the query is outside the statement (the library keeps it) => such grants are not judged further
+	var overridden, added []string
+	for _, k := range conflicts {
+		if pc.Extra[k] != "" {
+			overridden = append(overridden, k)
+		} else {
+			added = append(added, k)
+		}
+	}
+	g.Params["par_conflicts"] = strings.Join(overridden, ",")
+	for _, k := range added {
+		switch k {
+		case "nonce":
+			g.Nonce = q.Get("nonce")
+		case "code_challenge", "code_challenge_method", "prompt", "audience", "scope":
+			g.Unspec = true
+		}
+	}
 	if pushedRedirect == "" && q.Get("redirect_uri") != "" {
 		g.Unspec = true // the pushed request relied on the single registered URI; a redirect_uri added in the query is not an override of a pushed value: unspecified
 	}
